@@ -4,31 +4,33 @@ import (
 	mesos "github.com/mesos/mesos-go/api/v1/lib"
 )
 
-// MarkRunning sends the TASK_RUNNING update of a task that was launched with Behaviour.Launch
-// returning "silent" (so the harness, not the simulated agent, decides when the task becomes
-// active: e.g. only once the core has entered the task in its roster, one task at a time).
-// Returns false when the task is unknown or already terminal.
-func (s *Sim) MarkRunning(taskId string) bool {
+// SetTaskRunning sends the TASK_RUNNING status update of a launched task.  Together with
+// Behaviour.Launch returning "silent" it lets a harness choose the instant (and the order) at
+// which each launched task reports in, e.g. only after the core has entered it in its roster.
+func (s *Sim) SetTaskRunning(taskId string) bool {
 	s.mu.Lock()
 	lt := s.live[taskId]
-	ok := lt != nil && !lt.Terminal
 	s.mu.Unlock()
-	if !ok {
+	if lt == nil || lt.Terminal {
 		return false
 	}
 	s.update(lt, mesos.TASK_RUNNING, mesos.TaskStatus_Reason(0), false)
 	return true
 }
 
-// TaskAgentExecutor returns the agent and executor ids of a launched task ("" when unknown).
-func (s *Sim) TaskAgentExecutor(taskId string) (agentId, executorId string) {
+// TaskLabels returns the labels of a launched task (e.g. "environmentId").
+func (s *Sim) TaskLabels(taskId string) map[string]string {
 	s.mu.Lock()
 	defer s.mu.Unlock()
-	if lt := s.live[taskId]; lt != nil {
-		agentId = lt.Info.AgentID.Value
-		if lt.Info.Executor != nil {
-			executorId = lt.Info.Executor.ExecutorID.Value
+	out := map[string]string{}
+	lt := s.live[taskId]
+	if lt == nil || lt.Info.Labels == nil {
+		return out
+	}
+	for _, l := range lt.Info.Labels.Labels {
+		if l.Value != nil {
+			out[l.Key] = *l.Value
 		}
 	}
-	return
+	return out
 }
